@@ -7,8 +7,6 @@ import GeoProofs.Lemmas.MONOFuelC
 namespace Geo.Proofs.MONO
 open Geo Geo.Mono Geo.MonoBuild Geo.Proofs.C10
 
-macro "osplit" h:ident : tactic => `(tactic| (split at $h:ident <;> try (cases $h:ident; done)))
-
 theorem good_popped {V : List Pt} {st : St} {e : Ev} {evs : Heap} (g : Good V st)
     (hpop : heapPop st.events = some (e, evs)) :
     Good V { st with events := evs } ∧ Cur { st with events := evs } e ∧
